@@ -374,6 +374,22 @@ struct C02 {
             Fail(Fmt("double-match:%s", di.name), Fmt("opcode %04X matches %d rows of the decode table", o, di.rows_matching), rp);
             return;
         }
+        {
+            // the interpreter executes through its own 65536-entry dispatch table: its entry for this word is the same form
+            DispatchInfo dp;
+            c.impl.api->dispatch(c.impl.m, o, &dp);
+            ++res.transitions;
+            const char* want_name = di.row >= 0 ? di.name : "*"; // the catch-all matcher that calls undefined() is named "*"
+            if (std::strcmp(dp.name, want_name) != 0 || dp.need_expansion != di.need_expansion || (di.row >= 0 && (dp.mask != di.mask || dp.expected != di.expected)) ||
+                (di.row >= 0 && !dp.matches)) {
+                Fail(Fmt("dispatch-table:%s", di.name),
+                     Fmt("opcode %04X: the interpreter's dispatch table holds the form '%s' (mask %04X, pattern %04X, %d-word%s) where the decode table selects '%s' (mask %04X, "
+                         "pattern %04X, %d-word)", o, dp.name, dp.mask, dp.expected, dp.need_expansion ? 2 : 1, dp.matches ? "" : ", does not match the word", di.name, di.mask,
+                         di.expected, di.need_expansion ? 2 : 1),
+                     rp);
+                return;
+            }
+        }
         if (di.row >= 0 && di.unused == 0xFFFF) {
             Fail("table-text-mismatch", Fmt("row %d of the table object is '%s' but the table text has a different row there", di.row, di.name), rp);
             return;
